@@ -2946,6 +2946,8 @@ class BlockGen:
         # a 0/1 "flag" variable used directly as a condition: starts as a public int, becomes a raw secret integer
         # (1 - comparison) or stays public, depending on what the blocks assign
         self.flags = ["g0"] if rng.random() < (0.6 if self.small else 0.35) else []
+        # a boolean-typed variable: always holds a comparison result, used as a condition of blocks and selections
+        self.bools = ["b0"] if rng.random() < 0.3 else []
 
     def cell(self, write=False):
         names = sorted(n for n in self.lists if not (write and self.ext and n == "l0"))
@@ -2988,6 +2990,8 @@ class BlockGen:
             return {"op": r.choice(["//", "%", ">>"]), "a": {"op": "+", "a": self.leaf(), "b": {"k": 0}},
                     "b": {"k": r.choice([1, 2, 3])}}
         e = {"call": r.choice(["ite", "ite_lazy"]), "cond": self.cmp(), "t_": self.leaf(), "f_": self.leaf()}
+        if self.bools and r.random() < 0.4:
+            e["cond"] = {"tv": "b0"}
         if e["call"] == "ite_lazy" and r.random() < 0.15:
             e["same"], e["f_"] = True, e["t_"]
         return e
@@ -3014,6 +3018,8 @@ class BlockGen:
 
     def cond(self, flag_ok=False):
         r = self.r
+        if self.bools and r.random() < 0.2:
+            return {"tv": "b0"}
         if flag_ok and self.flags and r.random() < 0.6:
             # (only as a loop condition - `_.go = 1; while _while(_.go): ...`: the library refuses a public false
             # condition as unreachable code, which an _if/_else on a public flag runs into by construction)
@@ -3036,6 +3042,8 @@ class BlockGen:
         if self.depth >= self.cfg.get("max_nesting", 2) or u < 0.5:
             if self.flags and r.random() < 0.2:
                 return {"s": "track", "name": "g0", "e": self.flag_expr()}
+            if self.bools and r.random() < 0.15:
+                return {"s": "track", "name": "b0", "e": self.cmp()}
             if self.ext and r.random() < 0.3:
                 return {"s": "track", "name": "l0", "e": {"ext": r.choice(self.ext)}}
             if self.lists and r.random() < 0.45:
@@ -3115,6 +3123,8 @@ class BlockGen:
         for nm in self.names:
             e = {"ref": r.randrange(0, 8), "t": "I"} if r.random() < 0.5 else {"k": r.choice([0, 1, 2, 3, 10])}
             body.append({"s": "tracked_init", "name": nm, "e": e})
+        for nm in self.bools:
+            body.append({"s": "tracked_init", "name": nm, "e": self.cmp()})
         for nm in self.flags:
             body.append({"s": "tracked_init", "name": nm, "e": {"k": 1} if r.random() < 0.7 else
                          {"op": "-", "a": {"k": 1}, "b": {"op": "==", "a": {"ref": r.randrange(0, 8), "t": "I"},
